@@ -13,6 +13,10 @@ Decided:
   R-SIBLING-ENUM  the mjtGain / mjtBias enumerators whose branch of mj_fwdActuation reads d->actuator_velocity (directly,
                   through an alias local, or through a helper of the same TU) are all handled (a branch that contributes
                   a term) in mjd_actuator_vel; named couplings enforced by the model compiler are applied
+  R-ZERO-SKIP     in engine_derivative.c an accumulation into qDeriv may be skipped on `X == 0` (X a local) only if X is the
+                  accumulated value, or the value vanishes with X: the statements defining it (backward data slice of the
+                  straight-line path) are re-evaluated by the finite interpreter with X forced to 0 at two generic inputs; a
+                  non-zero result is a witness that a term of the derivative is dropped
   R-SIBLING-GUARD mjd_actuator_vel reproduces the control the force was computed from: if it reads d->ctrl it applies the
                   ctrlrange clamp under mjDSBL_CLAMPCTRL as mj_fwdActuation does
 Not decided: numerical agreement; passive forces (no enumerator structure to compare: left out); mjtDyn (its velocity
@@ -662,6 +666,305 @@ def skipfactor(res):
         raise AnalysisError(f"mj_stepSkip: only {n} integrator calls with a `skipstage >= S` argument found")
 
 
+
+# ---------------------------------------------------------------------------------------------------------------
+# R-ZERO-SKIP
+
+def _float_local(e):
+    e = cir.strip(e)
+    if e is not None and e.get("k") == "DeclRefExpr" and (e.get("ref") or {}).get("k") == "VarDecl" and \
+            any(t in ((e.get("ref") or {}).get("t") or e.get("t") or "") for t in ("mjtNum", "double", "float")) and \
+            "*" not in ((e.get("ref") or {}).get("t") or "") and "[" not in ((e.get("ref") or {}).get("t") or ""):
+        return e["ref"].get("id"), e["ref"].get("n")
+    return None
+
+
+def _slice_to(root, site):
+    """the straight-line slice of `root` that reaches `site`: statements preceding it in every enclosing block, descending
+    only into the branch / loop body that contains it (conditions on the way are not evaluated)."""
+    par = {}
+    for x in cir.walk(root):
+        for c in cir.kids(x):
+            if c is not None:
+                par[id(c)] = x
+    chain = [site]
+    while id(chain[-1]) in par:
+        chain.append(par[id(chain[-1])])
+    chain.reverse()
+    out = []
+    for parent, child in zip(chain, chain[1:]):
+        k = parent.get("k")
+        if k == "CompoundStmt":
+            for st in cir.kids(parent):
+                if st is child:
+                    break
+                if st is not None:
+                    out.append(st)
+        elif k == "ForStmt":
+            init = cir.kids(parent)[0] if cir.kids(parent) else None
+            if init is not None and init is not child:
+                out.append(init)
+    return out
+
+
+def _var_ids(n, kinds=("VarDecl",)):
+    return {(x.get("ref") or {}).get("id") for x in cir.walk(n) if x.get("k") == "DeclRefExpr" and (x.get("ref") or {}).get("k") in kinds}
+
+
+def _defs_of(st):
+    """local variables a statement may define: declared, assigned, incremented, or handed to a call by address / as an array"""
+    out = set()
+    for x in cir.walk(st):
+        k = x.get("k")
+        if k == "VarDecl":
+            out.add(x.get("id"))
+        elif (k == "BinaryOperator" and x.get("op") == "=") or k == "CompoundAssignOperator" or \
+                (k == "UnaryOperator" and x.get("op") in ("++", "--")):
+            t = cir.strip(cir.kids(x)[0])
+            while t is not None and t.get("k") in ("ArraySubscriptExpr", "MemberExpr"):
+                t = cir.strip(cir.kids(t)[0])
+            if t is not None and t.get("k") == "DeclRefExpr":
+                out.add((t.get("ref") or {}).get("id"))
+        elif cir.is_call(x):
+            for a in cir.args(x):
+                a2 = cir.strip(a)
+                if a2 is not None and a2.get("k") == "UnaryOperator" and a2.get("op") == "&":
+                    a2 = cir.strip(cir.kids(a2)[0])
+                if a2 is not None and a2.get("k") == "DeclRefExpr" and (a2.get("ref") or {}).get("k") == "VarDecl" and \
+                        ("[" in ((a2.get("ref") or {}).get("t") or "") or "*" in ((a2.get("ref") or {}).get("t") or "") or
+                         cir.strip(a) is not a2):
+                    out.add(a2["ref"].get("id"))
+    return out
+
+
+def _relevant(stmts, vals, xid):
+    """backward data slice of a straight-line statement list for the variables of `vals` and the tested variable"""
+    need = {xid}
+    for v in vals:
+        need |= _var_ids(v)
+    keep = []
+    for st in reversed(stmts):
+        d = _defs_of(st)
+        if d & need:
+            keep.append(st)
+            need |= _var_ids(st)
+    keep.reverse()
+    return keep
+
+
+def _zinterp(ns, env):
+    """finite.Interp + local arrays and stores to memory cells (a private store), and the copy / zero primitives"""
+    from .. import finite
+
+    class Z(finite.Interp):
+        def __init__(self):
+            super().__init__(ns, env=env, inline=None, max_steps=200000, call_abs=self._abs)
+            self.mem = {}
+
+        def _local_array(self, n):
+            x = cir.strip(n, casts=False)
+            if x is not None and x.get("k") == "DeclRefExpr" and (x.get("ref") or {}).get("k") in ("VarDecl",) and \
+                    "[" in ((x.get("ref") or {}).get("t") or ""):
+                return finite.Ptr(f"{x['ref'].get('n')}${x['ref'].get('id')}", 0)
+            return None
+
+        def rvalue(self, n):
+            if n is not None and n.get("k") == "DeclRefExpr":
+                p = self._local_array(n)
+                if p is not None:
+                    return p
+            return super().rvalue(n)
+
+        def _cast(self, n):
+            if n.get("ck") == "ArrayToPointerDecay":
+                p = self._local_array(cir.kids(n)[0])
+                if p is not None:
+                    return p
+            return super()._cast(n)
+
+        def stmt(self, n):
+            if n is not None and n.get("k") == "DeclStmt":
+                for d in cir.kids(n):
+                    if d is not None and d.get("k") == "VarDecl" and "[" in (d.get("t") or ""):
+                        init = [c for c in cir.kids(d) if c is not None and c.get("k") == "InitListExpr"]
+                        if init:
+                            for i, c in enumerate(cir.kids(init[0])):
+                                if c is not None:
+                                    self.mem[f"{d.get('n')}${d.get('id')}[{i}]"] = self.rvalue(c)
+                            if d.get("t", "").rstrip("]").split("[")[-1].isdigit():
+                                for i in range(len(cir.kids(init[0])), int(d.get("t").rstrip("]").split("[")[-1])):
+                                    self.mem[f"{d.get('n')}${d.get('id')}[{i}]"] = 0.0
+                        self.frames[-1][d.get("id")] = finite._UNINIT
+                        return
+            return super().stmt(n)
+
+        def load(self, loc):
+            if loc[0] == "mem" and loc[1] in self.mem:
+                return self.mem[loc[1]]
+            return super().load(loc)
+
+        def store(self, loc, v):
+            if loc[0] == "mem":
+                self.mem[loc[1]] = v
+                return
+            super().store(loc, v)
+
+        def _abs(self, name, node, it):
+            if name in ("mju_copy", "mju_copy3", "mju_copyInt", "memcpy"):
+                a = cir.args(node)
+                d, s_ = self.rvalue(a[0]), self.rvalue(a[1])
+                nn = 3 if name == "mju_copy3" else self.rvalue(a[2])
+                nn = nn.count if isinstance(nn, finite._Bytes) else nn
+                if isinstance(d, finite.Ptr) and isinstance(s_, finite.Ptr) and isinstance(nn, int) and nn < 64:
+                    for i in range(nn):
+                        key = s_.cell(i)
+                        self.mem[d.cell(i)] = self.mem[key] if key in self.mem else self.input(key, "mjtNum")
+                    return d
+                raise finite.Unsupported(f"{name} with symbolic length at line {node.get('line')}")
+            if name in ("mju_zero", "mju_zero3"):
+                a = cir.args(node)
+                d = self.rvalue(a[0])
+                nn = 3 if name == "mju_zero3" else self.rvalue(a[1])
+                if isinstance(d, finite.Ptr) and isinstance(nn, int) and nn < 64:
+                    for i in range(nn):
+                        self.mem[d.cell(i)] = 0.0
+                    return None
+                raise finite.Unsupported(f"{name} with symbolic length at line {node.get('line')}")
+            if name in ("fabs", "fabsf", "__builtin_fabs", "mju_abs"):
+                v = self.rvalue(cir.args(node)[0])
+                return abs(v)
+            if name in ("sqrt", "mju_sqrt", "exp", "mju_exp", "log", "mju_log", "sin", "cos", "mju_sin", "mju_cos", "pow", "mju_pow",
+                        "mju_max", "mju_min", "fmax", "fmin"):
+                import math
+                vs = [self.rvalue(a_) for a_ in cir.args(node)]
+                f_ = {"sqrt": math.sqrt, "mju_sqrt": math.sqrt, "exp": math.exp, "mju_exp": math.exp, "log": math.log,
+                      "mju_log": math.log, "sin": math.sin, "cos": math.cos, "mju_sin": math.sin, "mju_cos": math.cos,
+                      "pow": math.pow, "mju_pow": math.pow, "mju_max": max, "mju_min": min, "fmax": max, "fmin": min}[name]
+                try:
+                    return f_(*vs)
+                except (ValueError, OverflowError):
+                    raise finite.Unsupported(f"{name} outside its domain at generic inputs")
+            if name in paths.NORETURN or (name or "").startswith("mju_error") or (name or "").startswith("mju_warning"):
+                raise finite.Unsupported(f"error path reached ({name})")
+            return NotImplemented
+    return Z()
+
+
+def zero_skip(res):
+    """R-ZERO-SKIP: in the analytic-derivative routines, an accumulation into qDeriv may be skipped on `X == 0` only if the
+    accumulated value vanishes whenever X does.  Either X is the accumulated value itself, or the value — re-evaluated from the
+    statements that define it, with X forced to 0 and every other input generic — is zero.  (Evaluation of the defining
+    statements by the finite interpreter at generic inputs: a non-zero result is a witness that the skip drops a term.)"""
+    from types import SimpleNamespace
+    from .. import finite, norm
+    res.rule("R-ZERO-SKIP", "a derivative accumulation skipped on `X == 0` vanishes whenever X does (X is the accumulated value, or "
+             "the value re-evaluated with X = 0 at generic inputs is 0)", floor=2)
+    g = callgraph.build()
+    u = engine.unit(DER)
+    merged = {}
+    for tu in engine.engine_tus():
+        merged.update(engine.unit(tu).funcs)
+    ns = SimpleNamespace(funcs=merged, vars={}, tu=DER)
+
+    def writes_qderiv(name):
+        k = g.find(name) if name else None
+        if k is None:
+            return False
+        for k2 in g.closure([k]):
+            for e in g.funcs[k2]["events"]:
+                if e["struct"] == "mjData" and e["field"] == "qDeriv" and e["kind"] in ("elem", "pass", "alias", "addr"):
+                    return True
+        return False
+
+    nsite = 0
+    for fname, fn in sorted(u.funcs.items()):
+        if (fn.get("file") or u.tu) != u.tu or not any("mjData" in (p.get("t") or "") for p in cir.params(fn)):
+            continue
+        if not any("qDeriv" in cir.text(x) for x in cir.walk(fn) if x.get("k") == "MemberExpr") and \
+                not any(writes_qderiv(cir.callee(c)) for c in cir.calls(fn) if cir.callee(c) in u.funcs):
+            continue
+        view = norm.nest(fn, fatal=True)
+        sites = []
+        for x in cir.walk(view):
+            if x.get("k") == "CompoundAssignOperator" and "->qDeriv[" in cir.text(cir.kids(x)[0]):
+                sites.append((x, [cir.kids(x)[1]]))
+            elif cir.is_call(x) and cir.callee(x) in u.funcs and cir.callee(x) != fname and writes_qderiv(cir.callee(x)):
+                vals = []
+                for a in cir.args(x):
+                    a2 = cir.strip(a)
+                    if a2 is not None and a2.get("k") == "UnaryOperator" and a2.get("op") == "&" and _float_local(cir.kids(a2)[0]):
+                        vals.append(cir.kids(a2)[0])
+                    elif _float_local(a):
+                        vals.append(a)
+                if vals:
+                    sites.append((x, vals))
+        for site, vals in sites:
+            atoms = []
+            for cond, pol in norm.guards(view, site) or []:
+                fl = _float_local(cond)
+                if fl is not None and pol:
+                    atoms.append((fl, cond))
+            seen_atoms = set()
+            for (xid, xname), cond in atoms:
+                if xid in seen_atoms:
+                    continue
+                seen_atoms.add(xid)
+                nsite += 1
+                construct = f"{fname}:skip-on-{xname}"
+                if any((_float_local(v) or (None,))[0] == xid for v in vals):
+                    res.ok("R-ZERO-SKIP", construct, {"line": site.get("line"), "why": "the test is on the accumulated value itself"})
+                    continue
+                slice_ = _relevant(_slice_to(cir.body(view), site), vals, xid)
+                witness = None
+                undecided = None
+                for generic in (1.0, 0.75):
+                    env = {}
+                    for _attempt in range(400):
+                        it = _zinterp(ns, env)
+                        frame = {}
+                        for p in cir.params(fn):
+                            frame[p.get("id")] = finite.Ptr(p.get("n"), 0) if "*" in (p.get("t") or "") else finite._LazyScalar(p.get("n"), p.get("t"))
+                        it.frames.append(frame)
+                        try:
+                            for st in slice_:
+                                try:
+                                    it.stmt(st)
+                                except (finite._Continue, finite._Break, finite._Return):
+                                    pass
+                                if xid in it.frames[-1]:
+                                    it.frames[-1][xid] = 0.0
+                            if xid not in it.frames[-1]:
+                                undecided = f"`{xname}` is not defined before the accumulation on the straight-line path"
+                                break
+                            vs = [it.rvalue(v) for v in vals]
+                            if any(isinstance(v, (int, float)) and v == v and v != 0 for v in vs):
+                                witness = (generic, [cir.text(v) for v in vals], vs)
+                            break
+                        except finite.NeedKey as nk:
+                            t = nk.ctype or ""
+                            env[nk.key] = generic if finite.is_float_type(finite.base_type(t)) or "mjtNum" in t else \
+                                (0 if ("flg" in nk.key or "sleep" in nk.key or "disable" in nk.key) else 1)
+                        except finite.Unsupported as e:
+                            undecided = str(e)
+                            break
+                    else:
+                        undecided = "too many inputs"
+                    if witness or undecided:
+                        break
+                if witness:
+                    res.bad("R-ZERO-SKIP", construct, DER, site.get("line"),
+                            f"{fname} skips the accumulation `{cir.text(site)[:60]}` when `{xname}` is zero, but with {xname} = 0 and every "
+                            f"other input set to {witness[0]} the accumulated value {witness[1]} evaluates to {witness[2]}: a term of "
+                            f"the derivative is dropped although the force it differentiates is not zero")
+                elif undecided:
+                    raise AnalysisError(f"{fname}: cannot evaluate what `{cir.text(site)[:50]}` accumulates when {xname} = 0 ({undecided})")
+                else:
+                    res.ok("R-ZERO-SKIP", construct, {"line": site.get("line"), "why": "value vanishes with the tested variable at generic inputs"})
+    res.count("zero_skip_guards", nsite)
+    if nsite < 2:
+        raise AnalysisError(f"only {nsite} zero-test skip guards of qDeriv accumulations found in {DER}")
+
+
 def run(res, tier):
     g = callgraph.build()
     res.rule("R-SAVE-RESTORE", "FD routines undo every perturbation of their input on all paths", floor=9)
@@ -670,6 +973,7 @@ def run(res, tier):
     sibling_enum(res)
     fd_order(res)
     skipfactor(res)
+    zero_skip(res)
     res.explanation = (
         "All-paths typestate (dirty input components, saved scalars/buffers/state vectors) over the mjd_* routines of "
         "engine_derivative_fd.c with the state components taken from the mjtState tables and the effect of stepping "
@@ -706,6 +1010,18 @@ def _struct_helper_edits(decl, by_value=False):
 
 
 MUTANTS = [
+    {"id": "zero-skip-on-linear-coefficient", "expect": ("R-ZERO-SKIP", "mjd_passive_vel:skip-on-damping"),
+     "edits": [(DER, "    if (!B) {\n      continue;\n    }\n\n    // add sparse\n    addJTBJSparse(m, d, d->ten_J, &B",
+                "    if (!damping) {\n      continue;\n    }\n\n    // add sparse\n    addJTBJSparse(m, d, d->ten_J, &B")]},
+    {"id": "zero-skip-on-velocity", "expect": ("R-ZERO-SKIP", "mjd_passive_vel:skip-on-v"),
+     "edits": [(DER, "    if (!B) {\n      continue;\n    }\n\n    // add sparse\n    addJTBJSparse(m, d, d->ten_J, &B",
+                "    if (v == 0) {\n      continue;\n    }\n\n    // add sparse\n    addJTBJSparse(m, d, d->ten_J, &B")]},
+    {"id": "ctl-zero-skip-multiplicative", "expect": None,
+     "edits": [(DER, "    mjtNum B = -mjd_xPolyForce(damping, poly, v, mjNPOLY, 1);\n\n    if (!B) {\n      continue;\n    }",
+                "    mjtNum scale = 1;\n    mjtNum B = -scale * mjd_xPolyForce(damping, poly, v, mjNPOLY, 1);\n\n    if (scale == 0) {\n      continue;\n    }\n    if (!B) {\n      continue;\n    }")]},
+    {"id": "ctl-zero-skip-positive-form", "expect": None,
+     "edits": [(DER, "    if (!B) {\n      continue;\n    }\n\n    // add sparse\n    addJTBJSparse(m, d, d->ten_J, &B, 1, i, m->ten_J_rownnz, m->ten_J_rowadr, m->ten_J_colind);",
+                "    if (B != 0) {\n      addJTBJSparse(m, d, d->ten_J, &B, 1, i, m->ten_J_rownnz, m->ten_J_rowadr, m->ten_J_colind);\n    }")]},
     {"id": "struct-helper-other-spec", "expect": ("R-SAVE-RESTORE", "mjd_stepFD"),
      "edits": _struct_helper_edits("  const FDRestore restore = {fullstate, mjSTATE_FULLPHYSICS, skipsensor};\n")},
     {"id": "struct-helper-spec-widened-after", "expect": ("R-SAVE-RESTORE", "mjd_stepFD"),
